@@ -633,6 +633,10 @@ func child(batch int, seed int64, tier, outDir string) {
 				})
 			} else {
 				name := []string{"", "named", "skipnamed"}[rng.Intn(3)]
+				var blobUM map[string]string
+				if i%2 == 0 {
+					blobUM = map[string]string{"required": "by-the-caller"} // (no envelope of the pool carries it: a failure AFTER every other check)
+				}
 				failGen := rng.Intn(10) == 0 // decided here: PRNG consumption must not depend on what the library does
 				run("verifier.VerifyBlob", id+" "+cls+" "+level+" policy="+name, in, func() {
 					out, err := v.VerifyBlob(ctx, func(alg digest.Algorithm) (ocispec.Descriptor, error) {
@@ -640,7 +644,7 @@ func child(batch int, seed int64, tier, outDir string) {
 							return ocispec.Descriptor{}, errors.New("descriptor generator failed")
 						}
 						return ocispec.Descriptor{MediaType: blobDesc.MediaType, Digest: alg.FromBytes(blob), Size: int64(len(blob))}, nil
-					}, in, notation.BlobVerifierVerifyOptions{SignatureMediaType: f, TrustPolicyName: name})
+					}, in, notation.BlobVerifierVerifyOptions{SignatureMediaType: f, TrustPolicyName: name, UserMetadata: blobUM})
 					checkPair("verifier.VerifyBlob", id+" "+cls+" "+level+" policy="+name, out, err, true, in)
 				})
 			}
@@ -715,6 +719,19 @@ func child(batch int, seed int64, tier, outDir string) {
 					e1(bd.GetApplicableTrustPolicy(""))
 					if v, err := verifier.NewVerifierWithOptions(ts, verifier.VerifierOptions{BlobTrustPolicy: &bd}); err == nil {
 						v.VerifyBlob(ctx, func(alg digest.Algorithm) (ocispec.Descriptor, error) { return blobDesc, nil }, valid[lib.MediaJWS+"|blob"], notation.BlobVerifierVerifyOptions{SignatureMediaType: lib.MediaJWS})
+					}
+					// the same hostile blob document NEXT TO a good OCI document (a verifier is usually given both)
+					bverr := bd.Validate()
+					goodOCI := lib.OCIPolicy(trustpolicy.SignatureVerification{VerificationLevel: "strict"}, []string{"ca:x"}, []string{"*"})
+					if v, err := verifier.NewVerifierWithOptions(ts, verifier.VerifierOptions{OCITrustPolicy: goodOCI, BlobTrustPolicy: &bd}); err == nil {
+						if bverr != nil {
+							viol("invalid-policy-accepted", "NewVerifierWithOptions", "a blob document that fails Validate was accepted by NewVerifierWithOptions next to a valid OCI document", map[string]any{"document": string(in)})
+						}
+						for _, name := range []string{"", "named", "p"} {
+							out, e := v.VerifyBlob(ctx, func(alg digest.Algorithm) (ocispec.Descriptor, error) { return blobDesc, nil }, valid[lib.MediaJWS+"|blob"], notation.BlobVerifierVerifyOptions{SignatureMediaType: lib.MediaJWS, TrustPolicyName: name})
+							say(e)
+							_ = out
+						}
 					}
 				}
 			})
